@@ -348,6 +348,8 @@ pub struct OptSet {
     /// the inputs this case presents (messages / payloads after the literal rules), tabulated with the real engine
     pub rx_msg: Option<Vec<(Vec<u8>, Vec<u8>)>>,
     pub rx_blob: Option<Vec<(Vec<u8>, Vec<u8>)>>,
+    /// `--no-data` given explicitly (stream-level runs only: with an override stream it matters to option validation alone)
+    pub no_data: bool,
 }
 
 impl OptSet {
@@ -464,6 +466,21 @@ impl OptSet {
         o.prune_degenerate = *rng.pick(&[0u8, 1, 1, 2]);
         o.no_ff = rng.chance(1, 6);
         o
+    }
+
+    /// option sets lib.rs `validate_options` refuses (and their accepted neighbours): a zero or all-ones size limit, `--no-data`
+    /// next to content rules, a selector or rename of more than 4096 bytes, a rename onto itself
+    pub fn perturb_validity(&mut self, rng: &mut Rng) {
+        match rng.below(8) {
+            0 => self.max_blob = Some(0),
+            1 => self.max_blob = Some(usize::MAX),
+            2 => self.max_blob = Some(usize::MAX - 1),
+            3 => { self.no_data = true; if rng.chance(2, 3) && self.blob_file.is_none() { self.blob_file = Some(b"hunter2==>x\n".to_vec()); } }
+            4 => self.paths.push(vec![b'p'; *rng.pick(&[4096usize, 4097][..])]),
+            5 => self.renames.push((b"keep".to_vec(), b"keep".to_vec())),
+            6 => self.renames.push((vec![b'q'; *rng.pick(&[4096usize, 4097][..])], b"short".to_vec())),
+            _ => self.renames.push((b"lib/".to_vec(), vec![b'r'; *rng.pick(&[4096usize, 4097][..])])),
+        }
     }
 
     pub fn neutral() -> OptSet {
